@@ -112,6 +112,13 @@ fn through_door<T: Target, V: Carrier>(door: Door, scene: &Scene, faces: &[Tri<u
                 let warm = WrapShader::<V> { inner: AttrShader::new(Discard::Never), _v: std::marker::PhantomData };
                 // ... and with other geometry: a single face over six scratch vertices, replaced afterwards
                 let wv: Vec<Vtx> = (0..6).map(|k| vertex(ClipVec::from([[-0.5f32, -0.5, 0.0, 1.0], [0.5, -0.5, 0.0, 1.0], [0.0, 0.5, 0.0, 1.0]][k % 3]), 0.5)).collect();
+                if (faces.len() + r as usize) % 2 == 0 {
+                    // ... the SAME geometry: rendered into the scratch target first, then - nothing set again but shader, target
+                    // and context - into the real one (rendering may not use anything up)
+                    let mut b1 = b.shader(warm).target(&mut scratch).context(&sctx);
+                    b1.render();
+                    return b1.shader(sh.clone()).target(target).context(ctx).render();
+                }
                 let mut b1 = b.faces([Tri([3usize, 4, 5])]).vertices(&wv[..]).shader(warm).target(&mut scratch).context(&sctx);
                 b1.render();
                 b1.faces(faces).vertices(verts).shader(sh.clone()).target(target).context(ctx).render()
